@@ -236,7 +236,11 @@ def check(ctx):
         ok = ct == 'len(events)-self.n_solo_jumps'
         st = norm_text(s).replace(' ', '')
         ok2 = st.startswith('len(events)-') and 'collective_matrix' in st
-        ctx.ob('R5', fi, c, True if (ok and ok2) else None, 'solo + collective = total by construction' if (ok and ok2) else 'counting identity not recognised')
+        pairs_formula = 'len(collective)' in ct or 'len(coll_jumps)' in ct or 'len(self.collective)' in ct
+        ctx.ob('R5', fi, c, True if (ok and ok2) else (False if pairs_formula else None),
+               'solo + collective = total by construction' if (ok and ok2) else
+               ('the number of collective jumps is derived from the number of *pairs*: a jump that belongs to several pairs is counted several times, '
+                'solo + collective no longer equals the number of jumps' if pairs_formula else 'counting identity not recognised'))
     else:
         ctx.ob('R5', fi, 'n_solo_jumps / n_coll_jumps', None, 'counters not found')
 
